@@ -22,6 +22,8 @@
 
 #include "scheduler.h"
 #include <queue>
+#include <deque>
+#include <algorithm>
 
 namespace tbox {
 namespace coroutine {
@@ -33,13 +35,17 @@ class Channel {
     Channel (Scheduler &sch) : sch_(sch) { }
 
     bool operator >> (T &out) {
-        if (queue_.empty()) {   //! 如果队列里没有，则等待
-            token_.push(sch_.getToken());
-            do {
-                sch_.wait();
-                if (sch_.isCanceled())
-                    return false;
-            } while (queue_.empty());
+        while (queue_.empty()) {   //! 如果队列里没有，则等待
+            const RoutineToken self = sch_.getToken();
+            token_.push_back(self);     //! (re-)register before every wait
+            sch_.wait();
+            //! never leave our token behind (cancel, or resume() by somebody else)
+            token_.erase(std::remove(token_.begin(), token_.end(), self), token_.end());
+            if (sch_.isCanceled()) {
+                if (!queue_.empty())
+                    wakeOne();          //! pass on the wake-up that was meant for us
+                return false;
+            }
         }
 
         out = queue_.front();
@@ -48,12 +54,8 @@ class Channel {
     }
 
     Channel& operator << (const T &value) {
-        if (queue_.empty() && !token_.empty()) {
-            auto t = token_.front();
-            token_.pop();
-            sch_.resume(t);
-        }
         queue_.push(value);
+        wakeOne();                      //! one value, one woken waiter
         return *this;
     }
 
@@ -61,10 +63,18 @@ class Channel {
     inline bool size() const { return queue_.size(); }
 
   private:
+    void wakeOne() {
+        if (!token_.empty()) {
+            auto t = token_.front();
+            token_.pop_front();
+            sch_.resume(t);
+        }
+    }
+
     Scheduler &sch_;
 
     std::queue<T> queue_;
-    std::queue<RoutineToken> token_;
+    std::deque<RoutineToken> token_;
 };
 
 }
